@@ -111,11 +111,44 @@ type genState struct {
 	// every job of the script blocks until released (then Stop may race a wake-up, and Stop's
 	// context is observed with many jobs outstanding)
 	blockAll bool
+	// at most one entry per script whose job calls back into its own Cron (so that the order of
+	// such calls is always readable from the scheduler's log)
+	actPlanned bool
+	actUsed    bool
+	rn         *runner
 }
 
 func (g *genState) spec() *schedSpec {
 	r := g.R
 	s := &schedSpec{Block: g.blockAll || r.Chance(1, 4)}
+	if g.actPlanned && !g.actUsed && r.Chance(1, 2) {
+		g.actUsed = true
+		switch q := r.Intn(10); {
+		case q < 4:
+			s.Act = &jobAct{K: "removeself"}
+		case q < 6:
+			s.Act = &jobAct{K: "removeself"}
+			if n := len(g.rn.tokens); n > 0 {
+				s.Act = &jobAct{K: "remove", ID: int64(r.Range(1, n))} // an id handed out before
+			}
+		case q < 8:
+			s.Act = &jobAct{K: "sched", S: &schedSpec{K: "every", D: g.fam[r.Intn(len(g.fam))]}}
+		default:
+			s.Act = &jobAct{K: "entries"}
+		}
+	}
+	if g.k <= 2 && r.Chance(1, 5) {
+		// an unsatisfiable schedule (Next = zero time) scheduled FIRST: it sits at the head of
+		// the entry slice until the sort moves it behind the ordinary ones
+		s.K = "inst"
+		if r.Bool() {
+			s.L = []int64{g.t0 - int64(r.Range(0, 1_000_000_000))} // only an instant that has passed
+			if s.L[0] < 0 {
+				s.L = nil
+			}
+		}
+		return s
+	}
 	if r.Chance(1, 4) {
 		// explicit instants: some on whole seconds (shared with the @every entries), some odd
 		n := r.Range(1, 6)
@@ -225,6 +258,7 @@ func (g *genState) allBlock(rn *runner) bool {
 
 func (g *genState) next(rn *runner) (op, bool) {
 	r := g.R
+	g.rn = rn
 	if g.k >= g.nOps {
 		// tail: release everything, stop, poll
 		if g.tail == nil {
@@ -252,8 +286,12 @@ func (g *genState) next(rn *runner) (op, bool) {
 				api = op{Op: "remove", ID: g.removeID(rn)}
 			case q < 6 && len(rn.tokens) < 8:
 				api = op{Op: "sched", S: g.spec()}
-			case q < 8:
+			case q < 7:
 				api = op{Op: "entries"}
+			case q < 8:
+				api = op{Op: "start"}
+			case q < 9:
+				api = op{Op: "stop2"}
 			default:
 				api = op{Op: "stop"}
 			}
@@ -264,11 +302,16 @@ func (g *genState) next(rn *runner) (op, bool) {
 			return op{Op: "sched", S: g.spec()}, true
 		case p < 72:
 			return op{Op: "remove", ID: g.removeID(rn)}, true
-		case p < 80:
+		case p < 76:
 			return op{Op: "entries"}, true
-		case p < 85:
+		case p < 79:
+			return op{Op: "start2"}, true
+		case p < 82:
 			return op{Op: "stop"}, true
+		case p < 84:
+			return op{Op: "stop2"}, true
 		case p < 92:
+			// time passes while stopped (restart must not make up for it, nor keep old Next values)
 			return op{Op: "adv", To: g.advTarget(rn)}, true
 		case p < 96:
 			return op{Op: "ret", N: r.Range(1, 3)}, true
@@ -285,9 +328,16 @@ func (g *genState) next(rn *runner) (op, bool) {
 		return op{Op: "remove", ID: g.removeID(rn)}, true
 	case p < 68:
 		return op{Op: "entries"}, true
-	case p < 74:
+	case p < 72:
 		return op{Op: "stop"}, true
+	case p < 73:
+		return op{Op: "stop2"}, true
+	case p < 75:
+		return op{Op: "startstop", N: r.Intn(2)}, true
 	case p < 76:
+		if r.Bool() {
+			return op{Op: "start2"}, true
+		}
 		return op{Op: "start"}, true
 	case p < 90:
 		ts := rn.nextTargets()
@@ -305,7 +355,7 @@ func (g *genState) next(rn *runner) (op, bool) {
 		switch q := r.Intn(10); {
 		case q < 4 && len(rn.tokens) < 8:
 			api = op{Op: "sched", S: g.spec()}
-		case q < 7 || !g.allBlock(rn):
+		case q < 7 || !g.allBlock(rn) || g.actUsed:
 			api = op{Op: "remove", ID: g.removeID(rn)}
 		default:
 			// Stop racing a wake-up: only when every live job blocks, so that "is the context
@@ -328,8 +378,12 @@ func (g *genState) next(rn *runner) (op, bool) {
 				api = op{Op: "remove", ID: id}
 			case q < 6 && len(rn.tokens) < 8:
 				api = op{Op: "sched", S: g.spec()}
-			case q < 8:
+			case q < 7 && !g.actUsed:
 				api = op{Op: "stop"}
+			case q < 8 && !g.actUsed:
+				api = op{Op: "stop2"}
+			case q < 9:
+				api = op{Op: "start"}
 			default:
 				api = op{Op: "entries"}
 			}
@@ -370,7 +424,7 @@ func c05Gen(ctx *core.Ctx) {
 	for i := 0; i < scripts; i++ {
 		r := root.Fork()
 		g := &genState{R: r, ctx: ctx, fam: everyFamilies[i%len(everyFamilies)], nOps: r.Range(12, 36),
-			t0: t0s[r.Intn(len(t0s))], blockAll: r.Chance(1, 4)}
+			t0: t0s[r.Intn(len(t0s))], blockAll: r.Chance(1, 4), actPlanned: r.Chance(1, 3)}
 		c05Run(ctx, c05Input{T0: g.t0}, g.next)
 	}
 }
